@@ -82,6 +82,29 @@ def _isinf(ip, x):
     raise Unsupported("isinf")
 
 
+@model("jax.numpy.eye", "numpy.eye", "jax.numpy.identity", "numpy.identity")
+def _eye(ip, n, *a, **kw):
+    """the identity matrix as an uninterpreted function of its size (and of whatever else is passed)"""
+    return ip.uf("eye", ip.to_U(n), *[ip.to_U(x) for x in a], *[ip.to_U(kw[k]) for k in sorted(kw)])
+
+
+def _signed_inf(name, negative):
+    @model(f"jax.numpy.{name}", f"numpy.{name}")
+    def _m(ip, x):
+        if is_fp(x):
+            return z3.And(z3.fpIsInf(x), z3.fpIsNegative(x) if negative else z3.fpIsPositive(x))
+        if is_z3(x) and x.sort() in (z3.RealSort(), z3.IntSort()):
+            return False  # A-REAL
+        if isinstance(x, (int, float)):
+            return x == (float("-inf") if negative else float("inf"))
+        raise Unsupported(name)
+    return _m
+
+
+_signed_inf("isneginf", True)
+_signed_inf("isposinf", False)
+
+
 @model("jax.numpy.isnan", "numpy.isnan")
 def _isnan(ip, x):
     if is_fp(x):
@@ -292,7 +315,7 @@ def _array(ip, x, *a, **k):
     d = k.get("dtype", a[0] if a else None)
     if d is None:
         return x
-    if is_z3(x) and x.sort() == U and not (is_z3(d) and d.sort() == U):
+    if is_z3(x) and x.sort() in (U, z3.RealSort()) and not (is_z3(d) and d.sort() == U):
         from .core import LibRef
         nm = d.dotted if isinstance(d, LibRef) else d if isinstance(d, str) else None
         if nm is not None:  # a CONCRETE dtype (jnp.uint8, "int32", ...) applied to an array of unknown dtype: a named dtype constant
@@ -302,7 +325,20 @@ def _array(ip, x, *a, **k):
         r = CAST(x, d)
         ip.ctx.assume(z3.Implies(d == DTYPE_OF(x), r == x))
         return r
-    return x  # python scalars: value-preserving conversion (A-REAL)
+    if is_z3(d) and d.sort() == U and ((is_z3(x) and x.sort() == z3.RealSort()) or (isinstance(x, float) and x != int(x))):
+        # a REAL scalar cast to the dtype of some array: value-preserving for a floating-point dtype (A-REAL), truncation / wrap-around for an integer
+        # or boolean one - and what kind of dtype an arbitrary array has is not known
+        nm = str(d)
+        if nm.startswith("dtype:") and any(nm[6:].startswith(p_) for p_ in ("float", "bfloat", "double", "single", "half", "complex")):
+            return x
+        r = z3.Function("cast_real_to_dtype", z3.RealSort(), U, z3.RealSort())(to_sort(x, z3.RealSort()), d)
+        if not nm.startswith("dtype:"):
+            ip.ctx.assume(z3.Implies(IS_FLOAT_DTYPE(d), r == to_sort(x, z3.RealSort())))
+        return r
+    return x  # integers and python scalars into a float dtype: value-preserving conversion (A-REAL)
+
+
+IS_FLOAT_DTYPE = z3.Function("is_floating_dtype", U, z3.BoolSort())
 
 
 @model("jax.numpy.promote_types", "numpy.promote_types")
